@@ -749,6 +749,21 @@ theorem step_sortby (h : Nat) (asc : Bool) : StepOK E st sp (.sortby h asc) := b
   obtain ⟨l', hl'⟩ := Option.isSome_iff_exists.mp (qsortList_total _ hirr (sp.get h))
   exact refinesAt_sort _ _ l' hl'
 
+theorem step_appown (h j k : Nat) (hgd : guard E st (.appown h j k) = false) : StepOK E st sp (.appown h j k) := by
+  simp only [StepOK, step, specStep, growingMember]
+  exact mut_case hg h (fun _ => (refines_appown E j k).at _) (fun _ => hgd)
+
+theorem step_copyown (h j k : Nat) : StepOK E st sp (.copyown h j k) := by
+  obtain ⟨f, hf⟩ := hg.sim
+  simp only [StepOK, step, specStep]
+  exact mut_case hg h (fun _ => (refines_copyown E j k).at _) (fun ho => pGuard_false_of_nomove hf ho (nomove_copyown E j k _))
+
+theorem step_remx (h i c : Nat) : StepOK E st sp (.remx h i c) := by
+  obtain ⟨f, hf⟩ := hg.sim
+  simp only [StepOK, step, specStep]
+  exact mut_case hg h (fun _ => (refines_remx E i c).at _)
+    (fun ho => pGuard_false_of_nomove hf ho (nomove_remove E (fun _ => i) (fun _ => c) _))
+
 theorem step_iter (h : Nat) : StepOK E st sp (.iter h) := by
   obtain ⟨f, hf⟩ := hg.sim
   simp only [StepOK, step, specStep]
@@ -808,6 +823,9 @@ theorem step_sim [DecidableEq α] (E : Elem α) {st : St α} {sp : Sp α} (hg : 
   | appp h xs => exact step_appp E hg _ xs hgd
   | sortby h a => exact step_sortby E hg _ a
   | iter h => exact step_iter E hg _
+  | appown h j k => exact step_appown E hg _ j k hgd
+  | copyown h j k => exact step_copyown E hg _ j k
+  | remx h i c => exact step_remx E hg _ i c
 
 theorem view_sim {st : St α} {sp : Sp α} (hg : Good st sp) (slot : Nat) : st.view slot = some (sp.view slot) := by
   obtain ⟨f, hf⟩ := hg.sim
